@@ -160,6 +160,28 @@ PROPS = {
 }
 
 
+
+# additions to the rule texts (what else runs inside the check since the first version)
+RULE_EXTRA = {
+    "C01": "a fresh slice of the pairs also runs on the UNSANITISED build (address reuse is invisible under ASan); the certifying models of the upward, upward+simulation and (small operands) downward algorithms must return and agree with the implementation; `achain` histories compare the real antichain containers with their model (correspondence only)",
+    "C02": "a CLI slice runs `vata union` / `vata isect` on generated files and judges the printed automaton with isUnionM / isIsectM",
+    "C03": "a CLI slice runs `vata load`, `-p load`, `-s load` and judges the printed automaton (language, exact reload, post-conditions)",
+    "C04": "a CLI slice runs `vata sim` in both directions (relation mapped back through the printed index); `binrel` histories compare the real BinaryRelation / DiscontBinaryRelation with their model (correspondence only)",
+    "C05": "35 % chain-shaped automata (every state owns the leaf rule, binary rules over earlier states); a CLI slice runs `vata red`; `binrel` histories (correspondence only)",
+    "C06": "a CLI slice runs `vata cmpl` with the alphabet given by the file's Ops line",
+    "C07": "a fresh slice of the pairs also runs on the unsanitised build; `bddsim` compares ComputeSimulation of bottom-up BDD automata matrix for matrix with its proved model; `achain` / `ordvec` histories (correspondence only)",
+    "C08": "`rt` steps dump / reload / dump operands and results; a CLI slice runs load / -p / -s / union / isect of both BDD representations; `ordvec` histories (correspondence only)",
+    "C09": "a fresh slice of the pairs also runs on the unsanitised build; `achain` / `ordvec` histories (correspondence only)",
+    "C10": "`rt` steps (dump / reload, start states through the API); a CLI slice runs load / -p / -s / witness / union / isect of `-r expl_fa`; product nesting level of histories bounded (no intersection of an intersection of an intersection)",
+    "C11": "per-step views leave out AreTransitionsEmpty() (it unshares the table) – explicit `te` steps instead",
+    "C15": "a CLI slice runs `vata witness`",
+    "C16": "1 %: 66–150-state systems whose partition grows past 64 / 128 blocks (there the proved engine model is the oracle); the model of the engine as coded must return and produce exactly the real engine's relation in every case; `binrel` histories (correspondence only)",
+    "C17": "projections use non-idempotent leaf operations and masks with several variables in most cases",
+    "C20": "plus the API sweep (`apisweep`): every remaining public entry point of the four automaton classes called once on well-formed operands (may return or throw a std::exception; a sanitizer report / crash is the finding)",
+}
+for _k, _v in RULE_EXTRA.items():
+    PROPS[_k]["rule"] += "; " + _v
+
 def generate(prop, n, seed, tier):
     cfg = PROPS[prop]
     return gen.generate(cfg["kinds"], n, seed * 1000003 + sum(map(ord, prop)) * 7919)
